@@ -65,7 +65,10 @@ ST_CONVI = S("convi", n={"quick": 250, "thorough": 1500})
 ST_XTYPE = S("xtype", chunks=XPAIR, n={"quick": 600, "thorough": 3000})
 ST_FLT = S("flt", n={"quick": 3000, "thorough": 20000})
 ST_CODEC = S("codec", n={"quick": 1500, "thorough": 8000})
+ST_FMT = S("fmt", n={"quick": 500, "thorough": 4000}, args_tier={"thorough": ["--exhaustive", "1"]})
+ST_WRAP = S("wrap", n={"quick": 400, "thorough": 3000})
 ST_PARSE = S("parse", n={"quick": 500, "thorough": 2500}, gen=os.path.join(ROOT, "gen", "c08.py"))
+ST_PARSE_SMALL = S("parse", n={"quick": 150, "thorough": 800}, gen=os.path.join(ROOT, "gen", "c08.py"))
 
 GEN_RULE = ("operands come from the seeded in-driver generator: boundary constants (0, +-ulp, +-1, MIN, MAX, 2^k+-1), log-uniform "
             "magnitudes, sparse/dense/limb-structured patterns and result-targeted partners; ")
@@ -116,6 +119,26 @@ PLANS = {
                      "digits); a coverage cell is (layout, radix, grid/tie/hair-from-tie/near-tie/generic/malformed, fits/over+/over-, digit "
                      "count class, sign); non-trivial = well-formed and non-zero",
                 need_ops=["ps10", "ps2", "ps8", "ps16"]),
+    "C09": dict(module="fmtm", streams=[ST_FMT], profiles=["release", "checked"],
+                rule="one event = one (layout, value, trait, flag set, width, precision) formatted through a trait object, plus one round-trip "
+                     "event (to_string, FromStr of it) per value; traits Display/Debug/Binary/Octal/LowerHex/UpperHex, flag sets "
+                     "{none,+,#,0,+#0,<,^,>,*^,*<+#}, widths {none,0,1,7,40,150}, precisions {none,0,1..4,around frac bits,<60,<=200}; values are "
+                     "boundary/structured patterns, integer/half-integer neighbours and values within 2 ulp of k/10^d and (k+1/2)/10^d "
+                     "(remainder just below/at/above a decimal digit boundary); thorough enumerates all values of the 8-bit layouts x 24 specs; "
+                     "the monitor strips padding/sign/prefix with a model of core::fmt conventions and requires the digits shown to equal "
+                     "round-half-even(|value| * radix^d); a coverage cell is (layout, trait, class(value), flag set, width?, precision class, "
+                     "exact/rounded); non-trivial = value != 0",
+                need_ops=["fr", "fm:Display", "fm:Debug", "fm:Binary", "fm:Octal", "fm:LowerHex", "fm:UpperHex"]),
+    "C18": dict(module="wrapm", module_by_body={"parse": "parsem"}, streams=[ST_WRAP, ST_PARSE_SMALL], profiles=["checked", "release"],
+                rule="one event = one Wrapping<F> operation in all its spellings (w op r, &w op r, w op &r, &w op &r, w op= r, w op= &r): "
+                     "neg, not, + - * / %, & | ^, * / % by an integer, << >> with all 12 amount types (negative, >= width, near the "
+                     "amount type's maximum), div_euclid/rem_euclid(+_int), sum/product over 0-5 elements by value and by reference, 23 "
+                     "methods (int, frac, rounding, abs, signum, next_power_of_two, bit counts, rotations, ...), from_num/to_num for "
+                     "7 integer types, f32/f64 and bool, FromStr/from_str_* (gen/c08.py literals), and short programs of 3-8 random steps "
+                     "whose every intermediate value is logged; the oracle is the exact result reduced modulo 2^n (shift amounts modulo n); "
+                     "the checked profile is the deciding one (a forwarder wired to the plain operator only shows with checks on); a coverage "
+                     "cell is (layout, event kind, op, operand classes, fits/overflows/div0); non-trivial = operands non-zero",
+                need_ops=["wneg", "wnot", "wbin", "wbit", "wint", "wsh", "weu", "weui", "wsum", "wmeth", "wfrom", "wprog", "ps10", "ps16"]),
     "C10": dict(module="codecm", streams=[ST_CODEC], profiles=["release", "checked"],
                 rule="one event = one (layout, bit pattern) with encode / encoded_size / max_encoded_len / the integer's own encode / decode of "
                      "the little-endian bytes (built by the driver from the raw pattern, not from the library's output) / decode of every "
@@ -208,7 +231,7 @@ def plan(prop, tier, seed):
                             js.append(dict(kind="pipe", body=st["body"], gen=gen,
                                            drv=[bin_path(prof, b), "--seed", str(seed), "--n", str(st["n"][tier]),
                                                 "--shard", "%d/%d" % (s, shards)] + st["args"] + st["args_tier"].get(tier, []),
-                                           mon=[PY, MON, P["module"], prop, prof] + P.get("mon_args", []),
+                                           mon=[PY, MON, P.get("module_by_body", {}).get(st["body"], P["module"]), prop, prof] + P.get("mon_args", []),
                                            timeout=1800 if tier == "quick" else 4 * 3600))
             return js
         nlay = P.get("nlay", {"quick": 106, "thorough": 506})[tier]
@@ -226,7 +249,7 @@ ASSUME = [
     "a run decides only the operands it generated (plus the exhaustive small scopes named in the rule)",
 ]
 
-OP_BODY = {"fi": "convi", "fb": "convi", "fs": "convi", "ff": "xtype", "fl": "flt"}
+OP_BODY = {"fi": "convi", "fb": "convi", "fs": "convi", "ff": "xtype", "fl": "flt", "ps": "parse"}
 
 
 def replay_bin(body, line):
@@ -250,7 +273,46 @@ def replay_bin(body, line):
             elif cur and (pat(ls) + ", Fixed") in ln and ln.rstrip().endswith(pat(ld) + ");"):
                 return "xtype_" + cur
         raise SystemExit("type pair %s -> %s is in no generated pair list" % (ls, ld))
+    if body == "trans":
+        import re
+        src = open(os.path.join(ROOT, "harness", "drv", "src", "layouts.rs")).read()
+        ls, ld = t[1], t[2]
+
+        def pat(l):
+            return "%s, %d, %d" % ("true" if l[0] == "i" else "false", int(l[1:].split(".")[0]), int(l[1:].split(".")[1]))
+        cur = None
+        found = None
+        for ln in src.splitlines():
+            m = re.match(r"macro_rules! (layouts|pairs)_(tq_s|tq_u|tq|ts\d+|tu\d+|tp\d+) ", ln)
+            if m:
+                cur = (m.group(1), m.group(2))
+            elif ln.startswith("macro_rules!"):
+                cur = None
+            elif cur and "$m!(" in ln:
+                if ls == ld and cur[0] == "layouts" and ln.rstrip().endswith(pat(ls) + ");"):
+                    found = cur[1]
+                elif ls != ld and cur[0] == "pairs" and (pat(ls) + ", Fixed") in ln and ln.rstrip().endswith(pat(ld) + ");"):
+                    found = cur[1]
+                if found:
+                    break
+        if not found:
+            raise SystemExit("type pair %s -> %s is in no generated list" % (ls, ld))
+        if found.startswith("tq"):
+            return "trans_q"
+        return "trans_t" + re.sub(r"\D", "", found)
     return "%s_%s" % (body, chunk_of(t[1]))
+
+
+ALL_OP_BODY = {"round": "round", "fi": "convi", "fb": "convi", "fs": "convi", "ff": "xtype", "fl": "flt", "ps": "parse",
+               "fm": "fmt", "fr": "fmt", "cd": "codec"}
+for _o in ("neg", "abs", "add", "sub", "mul", "div", "mul_int", "div_int", "add_r", "sub_r", "mul_r", "div_r", "mul_int_r", "div_int_r"):
+    ALL_OP_BODY[_o] = "arith"
+for _o in ("rem", "rem_int", "rem_r", "rem_int_r"):
+    ALL_OP_BODY[_o] = "rem"
+for _o in ("sqrt", "log2", "ln", "exp", "pow", "powi", "sin", "cos", "tan"):
+    ALL_OP_BODY[_o] = "trans"
+for _o in ("wneg", "wnot", "wbin", "wbit", "wint", "wsh", "weu", "weui", "wsum", "wmeth", "wfrom", "wprog"):
+    ALL_OP_BODY[_o] = "wrap"
 
 
 def replay_plan(prop, hdr, lines):
@@ -259,13 +321,13 @@ def replay_plan(prop, hdr, lines):
         op = lines[0].split()[0]
         body = hdr.get("body")
         if not body or body == "None":
-            body = OP_BODY.get(op, P["streams"][0]["body"])
+            body = ALL_OP_BODY.get(op, P["streams"][0]["body"])
         b = replay_bin(body, lines[0])
         profs = ["release", "checked"]
 
         def job(bin_path, prof, inp):
             return dict(kind="pipe", drv=[bin_path(prof, b), "--stdin"], stdin=inp,
-                        mon=[PY, MON, P["module"], prop, prof] + P.get("mon_args", []), timeout=600)
+                        mon=[PY, MON, P.get("module_by_body", {}).get(body, P["module"]), prop, prof] + P.get("mon_args", []), timeout=600)
         return dict(build={p: {b} for p in profs}, profiles=profs, job=job)
     import plans_extra
     return plans_extra.replay_plan(prop, hdr, lines)
